@@ -228,6 +228,7 @@ def run(ck):
     from props import C09, C14
 
     common.import_results(ck, C09, "2", "dispatch_events", "2c")
+    common.import_results(ck, C09, "3", "dispatch_events", "2c")
     common.import_results(ck, C01, "4", None, "3")
     C14.lifecycle_set_follows(ck, "2c")
     common.import_results(ck, C05, "5", "Timer", "2c")
